@@ -43,6 +43,7 @@ def run(model, res, tier):
     H.safely(res, 'R1', 'text_of_number', _text_of_number, model, res)
     H.safely(res, 'R1', 'clean_filter', _clean_filter, model, res)
     H.safely(res, 'R6', 'trim', _trim, model, res)
+    H.safely(res, 'R6', 'clean codes', _clean_codes, model, res)
     keys = []
     for n in ('LEFT', 'RIGHT', 'MID', 'SUBSTITUTE', 'CONCATENATE', 'TEXTJOIN', 'UPPER', 'LOWER', 'PROPER', 'TRIM', 'CLEAN', 'LEN', 'CHAR', 'CODE'):
         m, f = model.registered(n)
@@ -50,6 +51,9 @@ def run(model, res, tier):
     region = c.cg.reachable(keys)
     H.safely(res, 'R1', 'unchecked_positions', _unchecked_positions, model, res, c, region)
     H.safely(res, 'R10', 'SUBSTITUTE', _kth_occurrence, model, res)
+    res.rule('RX', 'where a function answers "an error rather than a value" by raising, the catch-all of parse() turns every exception class into #ERROR! (shared with C01.R1)')
+    from . import c01 as _c01
+    H.borrow(res, 'RX', 'catch-all of parse()', lambda tmp: _c01.catch_all_rule(model, tmp, c))
     purity.check_region(res, c, 'R7', None, region, 'a text function')
     purity.check_memo(res, c, 'R7', region, 'a text function')
 
@@ -447,6 +451,38 @@ def _clean_filter(model, res):
                 res.violation('R6', 'function:CLEAN:filter', m.where(t),
                               'CLEAN keeps a character when %s: CLEAN removes the control characters (codes 0-31) and nothing else - this test '
                               'also drops or keeps other characters (e.g. no-break spaces, format characters)' % src(t), func=f.name)
+
+
+CLEAN_CODES = tuple(range(0, 40)) + (127, 133, 160, 173, 0x200d, 0x3000, 0xe9)
+
+
+def _clean_codes(model, res):
+    """R6 (CLEAN, code by code): every character is run through CLEAN on its own - inside the interpreter, on a constant - and is dropped
+    exactly when its code is 0..31.  Decides filters the syntactic reading above does not recognise (a table of codes, a range, a set)."""
+    m, f = model.registered('CLEAN')
+    n = 0
+    wrong = []
+    for code in CLEAN_CODES:
+        ch = chr(code)
+        try:
+            outs = _runs(model, 'CLEAN', lambda: [Const('a' + ch + 'b')])
+        except Unmodelled as e:
+            res.ob('R6', 'CLEAN', {'code': code}, True, 'undecided: %s' % e)
+            continue
+        if len(outs) != 1 or outs[0].imprecise or outs[0].kind != 'return' or not isinstance(outs[0].value, Const):
+            res.ob('R6', 'CLEAN', {'code': code}, True, 'undecided')
+            continue
+        n += 1
+        want = 'ab' if code <= 31 else 'a' + ch + 'b'
+        if outs[0].value.value != want:
+            wrong.append((code, outs[0].value.value))
+    res.ob('R6', 'CLEAN', '%d character codes: dropped exactly when 0 <= code <= 31' % n, not wrong, repr(wrong[:4]))
+    if wrong:
+        code, got = wrong[0]
+        res.violation('R6', 'function:CLEAN:codes', m.where(f),
+                      'CLEAN("a" & CHAR(%d) & "b") gives %r: CLEAN removes the control characters (codes 0-31) and nothing else; wrong for the codes %s'
+                      % (code, got, [c_ for c_, _ in wrong][:8]), case={'code': code}, func=f.name)
+    res.soft_floor('CLEAN codes decided', n, 30)
 
 
 def _text_of_number(model, res):
